@@ -44,12 +44,37 @@ fn resources() -> Vec<adblock::resources::Resource> {
     vec![crate::net::mk_resource("sc1.js", vec!["sc1".into()], "application/javascript", 0, vec![], "function sc1() {}")]
 }
 
+fn meta_json(m: &adblock::lists::FilterListMetadata) -> Value {
+    let exp = match &m.expires {
+        Some(adblock::lists::ExpiresInterval::Days(d)) => format!("days:{}", d),
+        Some(adblock::lists::ExpiresInterval::Hours(h)) => format!("hours:{}", h),
+        None => String::new(),
+    };
+    json!({"Title": m.title.clone().unwrap_or_default(), "Homepage": m.homepage.clone().unwrap_or_default(),
+           "Redirect": m.redirect.clone().unwrap_or_default(), "Expires": exp})
+}
+
 pub fn replay_list(c: &Value, rep: &mut Report) {
     let lines = strs(&c["lines"]);
     let reference = strs(&c["reference"]);
     let (f, rt) = (c["format"].as_str().unwrap(), c["rule_types"].as_str().unwrap());
     let o = opts(f, rt);
     rep.evaluations += 1;
+    // list metadata: from the head of the text (read_list_metadata) and from all lines (add_filter_list)
+    if let Some(want_all) = c.get("meta_all") {
+        let text = lines.join("\n");
+        match guarded(|| (meta_json(&read_list_metadata(&text)), meta_json(&FilterSet::new(true).add_filter_list(&text, o)))) {
+            Ok((head, all)) => {
+                if &head != &c["meta_head"] {
+                    rep.mismatch(json!({"what": "list-metadata-head", "lines": lines, "observed": head, "allowed": [c["meta_head"]], "devs": []}));
+                }
+                if &all != want_all {
+                    rep.mismatch(json!({"what": "list-metadata-all", "lines": lines, "observed": all, "allowed": [want_all], "devs": []}));
+                }
+            }
+            Err(p) => rep.mismatch(json!({"what": "list-metadata", "lines": lines, "observed": "panic", "panic": p, "devs": []})),
+        }
+    }
     let r = guarded(|| {
         // three ways of loading the same text
         let (nf, cf) = parse_filters(&lines, true, o);
